@@ -32,6 +32,8 @@ def direct_specs(draw, tier):
         "noise": draw(st.sampled_from([0.0, 0.0, 1e-9, 1e-8, 1e-7])),
         "symprec": draw(st.sampled_from([1e-5, 1e-5, 1e-3])),
         "supercell_mult": draw(st.sampled_from([1, 1, 2, 3])),
+        # the tables of one cell are still in use when those of another cell of the same size are made (displaced supercells, volumes)
+        "then_another": draw(st.booleans()),
     }
 
 
@@ -142,6 +144,14 @@ def run_direct(spec):
     except Exception as e:
         # documented limitation: Niggli reduction may fail for extreme shears
         return Out(nontrivial=False, rejected=True, classes=["rejected:" + type(e).__name__, spec["kind"]])
+    if spec.get("then_another"):
+        r2 = rng_from(spec["key"] + 99)
+        ps2 = np.array(ps + r2.uniform(-0.3, 0.3, size=ps.shape), dtype="double", order="C")
+        try:
+            for dns in (True, False):
+                get_smallest_vectors(np.array(L * 1.01, order="C"), ps2, np.array(ps2[: len(pp)], order="C"), store_dense_svecs=dns, symprec=tol)
+        except Exception:
+            pass
     try:
         err, mm = check_tables(L, ps, pp, dense, sparse, tol)
     except TooExpensive:
@@ -158,7 +168,7 @@ def run_direct(spec):
     aspect = lens.max() / lens.min()
     return Out(ok=True, nontrivial=(mm >= 2 or reduced_nontrivial or aspect >= 5),
                classes=[spec["kind"], "mult:%d" % mm, "noise" if spec["noise"] else "exact", "niggli_nontrivial" if reduced_nontrivial else "niggli_id"] +
-               (["many_positions"] if spec.get("many") else []),
+               (["many_positions"] if spec.get("many") else []) + (["checked_after_a_later_call" if spec.get("then_another") else "checked_at_once"]),
                info={"max_multiplicity": mm})
 
 
